@@ -123,8 +123,6 @@ fn hyphenate_impl(hyphenater: &Hyphenator, list: &[ds::Horizontal]) -> Vec<ds::H
                     out.push(elem.clone());
                 }
                 Action::Abort => {
-                    i += 1;
-                    out.push(elem.clone());
                     break None;
                 }
             }
